@@ -1359,12 +1359,32 @@ impl<'a> Evaluator<'a> {
             Expr::While(w) => {
                 // bounded unrolling: a loop that does not finish within the bound is an analysis failure, not a result
                 for _ in 0..10_000 {
+                    let mut e2 = env.clone();
+                    if let Expr::Let(l) = &*w.cond {
+                        // `while let PAT = EXPR`
+                        let v = self.eval(&l.expr, env)?;
+                        match self.pat_match(&l.pat, &v, &mut e2) {
+                            PatM::Yes => {}
+                            PatM::No => return Ok(Val::Unit),
+                            PatM::Unknown(s) => return Err(s),
+                        }
+                        let r = self.eval_block(&w.body, &mut e2)?;
+                        merge_back_shadow_safe(env, &e2, &l.pat);
+                        if let Val::Ctor(n, _, _) = &r {
+                            if n == "$return" {
+                                return Ok(r);
+                            }
+                            if n == "$break" {
+                                return Ok(Val::Unit);
+                            }
+                        }
+                        continue;
+                    }
                     match self.eval(&w.cond, env)? {
                         Val::Bool(false) => return Ok(Val::Unit),
                         Val::Bool(true) => {}
                         o => return Err(format!("while condition evaluated to {}", o.show())),
                     }
-                    let mut e2 = env.clone();
                     let r = self.eval_block(&w.body, &mut e2)?;
                     merge_back(env, &e2);
                     if let Val::Ctor(n, _, _) = &r {
